@@ -184,6 +184,103 @@ def build_and_check(chk, sc, fmt, k, keep, replay_base, share=None, same_vb=None
     return "ok"
 
 
+def _digest_name(joined):
+    """the harness's own reading of the rule for long names: base32 of the SHA-1 of the joined name"""
+    import base64
+    import hashlib
+
+    return base64.b32encode(hashlib.sha1(joined.encode("utf-8")).digest()).decode("ascii")
+
+
+def _part(cp):
+    ch = chr(cp)
+    return ch if (ch.isascii() and ch.isalpha()) else "%x" % cp
+
+
+def long_names(chk):
+    """GlyphName.tla (the hashed branch of glyph_name) model-checked; every exported class (first character class x
+    joined length 1..70 x digest class) is realised by a concrete codepoint sequence and replayed into the real
+    function; sequences of real emoji codepoints from the hashed classes are then built into fonts and shaped."""
+    from nanoemoji.glyph import glyph_name
+
+    res = common.run_tlc("GlyphName", "GlyphName.cfg", timeout=600)
+    chk.add_tlc(res, "GlyphName (exhaustive: first-character class x joined length 1..70 x digest class)")
+    if not res.ok:
+        chk.tlc_violation(res, "GlyphName")
+    neg = common.run_tlc("GlyphName", "GlyphName_keepprefix.cfg", timeout=600, coverage=False)
+    chk.add_tlc(neg, "GlyphName_keepprefix (prefix not re-decided on the digest: expected to violate ValidIdent)")
+    if neg.ok:
+        raise MachineryError("GlyphName_keepprefix.cfg holds: ValidIdent is vacuous")
+    letters = [ord(c) for c in "ABCDEFGHIJKLMNOPQRSTUVWXYZ"]
+
+    def realise(first, length, digest_first, salt):
+        """codepoints whose joined name has this first-character class and exactly this length (and, if asked, a digest
+        of the given class)"""
+        for attempt in range(400):
+            rr = common.rng("C04", "longname", first, length, salt, attempt)
+            head = {"alpha": [0x41, 0xA9, 0xE000 + rr.randrange(64)], "digit": [0x5, 0x31, 0x200D, 0x1F600 + rr.randrange(64)]}[first]
+            head = [c for c in head if len(_part(c)) <= length]
+            if not head:
+                return None
+            cps = [rr.choice(head)]
+            n = len(_part(cps[0]))
+            while n < length:
+                room = length - n - 1
+                opts = [c for c in ([rr.choice(letters)] if room >= 1 else []) + ([0xA9, 0x31] if room >= 2 else []) + ([0x200D] if room >= 4 else []) + ([0x1F468 + rr.randrange(40)] if room >= 5 else [])
+                        if len(_part(c)) <= room and (room - len(_part(c))) != 1]
+                if not opts:
+                    break
+                c = rr.choice(opts)
+                cps.append(c)
+                n += 1 + len(_part(c))
+            joined = "_".join(_part(c) for c in cps)
+            if len(joined) != length:
+                continue
+            if digest_first is not None:
+                d = _digest_name(joined)
+                if (d[0].isalpha()) != (digest_first == "alpha"):
+                    continue
+            return tuple(cps)
+        return None
+
+    drift = 0
+    for k, rec in enumerate(res.records):
+        cps = realise(rec["in"]["first"], rec["in"]["len"], rec["first"] if rec["hashed"] else None, 0)
+        if cps is None:
+            chk.notes["longname_unrealised"] = chk.notes.get("longname_unrealised", 0) + 1
+            continue
+        joined = "_".join(_part(c) for c in cps)
+        want = ("g_" if rec["prefix"] else "") + (_digest_name(joined) if rec["hashed"] else joined)
+        real = glyph_name(cps)
+        chk.case(key=("longname", rec["in"]["first"], rec["in"]["len"], rec["first"], rec["hashed"]), nontrivial=rec["hashed"])
+        chk.traces_validated += 1
+        if real != want:
+            drift += 1
+            ok = real[:1].isalpha() or real.startswith("g_")
+            if not ok or len(real) > 63:
+                chk.violation(f"glyph_name({['%x' % c for c in cps]}) = {real!r}: not a glyph name a feature file accepts "
+                              f"(the model gives {want!r}); the source can never be reached", {"cps": list(cps), "name": real})
+    chk.notes["longname_drift"] = drift
+    # end to end: long sequences of emoji codepoints, both first-character classes, digests of both classes
+    for k, fmt in enumerate(["glyf_colr_1", "picosvg", "cbdt"] if chk.tier == "quick" else FORMATS):
+        seqs = []
+        for j, (first, dfirst) in enumerate([("alpha", "digit"), ("alpha", "alpha"), ("digit", "digit"), ("digit", "alpha")] * 2):
+            for attempt in range(200):
+                rr = common.rng("C04", "longseq", k, j, attempt)
+                head = rr.choice([0xE000 + rr.randrange(200), 0xA9, 0xFE0F] if first == "alpha" else [0x1F468, 0x1F469, 0x1F9D1])
+                cps = [head]
+                for _ in range(rr.randrange(11, 14)):
+                    cps += [0x200D, rr.choice([0x1F466, 0x1F467, 0x1F468, 0x1F469, 0x1F48B, 0x2764, 0x1F91D])]
+                joined = "_".join(_part(c) for c in cps)
+                if len(joined) > 63 and (_digest_name(joined)[0].isalpha()) == (dfirst == "alpha") and cps not in seqs:
+                    seqs.append(cps)
+                    break
+        sc = {"srcs": [["%x" % c for c in s] for s in seqs], "phase": "done", "names": []}
+        build_and_check(chk, sc, fmt, k, k % 2 == 0, {"scenario": sc["srcs"], "family": "long-names"}, same_vb=(0, 0, 100, 100))
+        chk.case(key=("longseq", fmt), nontrivial=True)
+        chk.traces_validated += 1
+
+
 def run(chk):
     quick = chk.tier == "quick"
     chk.rule = (
@@ -251,6 +348,7 @@ def run(chk):
         build_and_check(chk, sc, fmt, k, k % 2 == 0, {"scenario": seqs, "share": sorted(share)}, share=share, same_vb=(0, 0, 100, 100))
         chk.case(key=("share", k), nontrivial=True)
         chk.traces_validated += 1
+    long_names(chk)
     chk.assumptions += ["artwork identity is decided by a source-unique rectangle (bounds within 3 units) / PNG bytes"]
 
 
